@@ -233,6 +233,8 @@ class Scss(Printer):
                 if s.using:
                     head += " using (%s)" % params(s.using, None)
                 self.block(ind, head, s.content, s)
+            elif s.k == "atroot" and s.a.get("short"):
+                self.block(ind, "@at-root " + s.body[0].selector, s.body[0].body, s)
             else:
                 self.block(ind, self.header(s), s.body, s)
 
@@ -265,6 +267,8 @@ class Indented(Printer):
                 if s.using:
                     head += " using (%s)" % params(s.using, None)
                 self.block(ind, head, s.content, s)
+            elif s.k == "atroot" and s.a.get("short"):
+                self.block(ind, "@at-root " + s.body[0].selector, s.body[0].body, s)
             else:
                 self.block(ind, self.header(s), s.body, s)
 
